@@ -591,6 +591,17 @@ theorem source_delta_conversions (ref : PosObj ℝ) (d : V3 ℝ) (w : V6 ℝ) :
     Frames.deltaTrs2AcrPosVelSrc ref w = deltaTrs2Acr ref w ∧ Frames.deltaAcr2TrsPosVelSrc ref w = deltaAcr2Trs ref w :=
   ⟨rfl, rfl, rfl, rfl, rfl, rfl⟩
 
+/-- `vector` / `distance` / `direction` (and the `*_to` methods) of an observer given **in llh**: the code works in the
+observer's own system, i.e. on (Δlat, Δlon, Δh) -/
+theorem source_frame_vectors_llh (self other : PosObj ℝ) :
+    Frames.vectorToLlhSrc self other = self.vectorToLlh other ∧
+    Frames.distanceToLlhSrc self other = self.distanceToLlh other ∧
+    Frames.directionToLlhSrc self other = self.directionLlh other ∧
+    Frames.vectorLlhSrc self other = self.vectorToLlh other ∧
+    Frames.distanceLlhSrc self other = self.distanceToLlh other ∧
+    Frames.directionLlhSrc self other = self.directionLlh other :=
+  ⟨rfl, rfl, rfl, rfl, rfl, rfl⟩
+
 end SourceFrames
 
 /-! ### arrays: every row in the frame of its own reference position -/
@@ -650,8 +661,62 @@ theorem rows_selection_commutes {β : Type} (f : PosObj ℝ → β → β) (refs
     rowsWith f (takeRows refs idx) (takeRows ds idx) = takeRows (rowsWith f refs ds) idx :=
   (takeRows_rowsWith f refs ds hl idx).symm
 
-example : rowsTrs2Enu [⟨⟨1, 0, 0⟩, ⟨0, 1, 0⟩, 0, 0⟩] [(⟨1, 2, 3⟩ : V3 ℝ)] = [⟨2, 3, 1⟩] := by
+example : rowsTrs2Enu [⟨⟨1, 0, 0⟩, ⟨0, 1, 0⟩, 0, 0, 0⟩] [(⟨1, 2, 3⟩ : V3 ℝ)] = [⟨2, 3, 1⟩] := by
   simp [rowsTrs2Enu, rowsWith, deltaTrs2Enu, deltaTrs2EnuCS, trs2enuCS, M3.mulVec, V3.dot]
+
+/-- **the broadcasting the code accepts**: with as many reference positions as values the rows are paired; a single
+reference position — given as `(k,)` or `(1, k)` — is the frame of every row; a single value row is converted in the
+frame of every reference position; any other pair of lengths is refused -/
+theorem broadcast_rows {β : Type} (f : PosObj ℝ → β → β) (refs : List (PosObj ℝ)) (ds : List β) :
+    (refs.length = ds.length → rowsWithB f refs ds = some (rowsWith f refs ds)) ∧
+    (∀ r, refs = [r] → rowsWithB f refs ds = some (ds.map (f r))) ∧
+    (∀ d, ds = [d] → rowsWithB f refs ds = some (refs.map (fun r => f r d))) ∧
+    (refs.length ≠ ds.length → refs.length ≠ 1 → ds.length ≠ 1 → rowsWithB f refs ds = none) := by
+  refine ⟨?_, ?_, ?_, ?_⟩
+  · intro h; simp [rowsWithB, broadcastRows, h]
+  · rintro r rfl
+    by_cases h : ds.length = 1
+    · obtain ⟨d, rfl⟩ := List.length_eq_one_iff.1 h
+      simp [rowsWithB, broadcastRows, rowsWith]
+    · have h' : ¬ (1 = ds.length) := fun e => h e.symm
+      simp [rowsWithB, broadcastRows, rowsWith, h', zipWith_replicate_l]
+  · rintro d rfl
+    by_cases h : refs.length = 1
+    · obtain ⟨r, rfl⟩ := List.length_eq_one_iff.1 h
+      simp [rowsWithB, broadcastRows, rowsWith]
+    · simp only [rowsWithB, broadcastRows, List.length_singleton, h, if_false]
+      cases refs with
+      | nil => simp [rowsWith]
+      | cons r rs =>
+        cases rs with
+        | nil => simp at h
+        | cons r' rs' =>
+          have := zipWith_replicate_r f d (r :: r' :: rs')
+          simpa [rowsWith] using this
+  · intro h h1 h2
+    simp only [rowsWithB, broadcastRows, h, if_false]
+    cases refs with
+    | nil => cases ds with
+      | nil => simp at h
+      | cons d ds' => cases ds' with
+        | nil => simp at h2
+        | cons _ _ => rfl
+    | cons r rs => cases rs with
+      | nil => simp at h1
+      | cons r' rs' => cases ds with
+        | nil => rfl
+        | cons d ds' => cases ds' with
+          | nil => simp at h2
+          | cons _ _ => rfl
+
+/-- `rotation.enu2trs` / `trs2enu` take two scalars or two arrays of the same length, nothing else -/
+theorem angle_shapes (m : ℝ → ℝ → M3 ℝ) (a b : ℝ) (as bs : List ℝ) :
+    angleMatrices m (.scalar a) (.scalar b) = some [m a b] ∧
+    (as.length = bs.length → angleMatrices m (.array as) (.array bs) = some (List.zipWith m as bs)) ∧
+    (as.length ≠ bs.length → angleMatrices m (.array as) (.array bs) = none) ∧
+    angleMatrices m (.scalar a) (.array bs) = none ∧ angleMatrices m (.array as) (.scalar b) = none := by
+  refine ⟨rfl, fun h => by simp [angleMatrices, h], fun h => by simp [angleMatrices, h], rfl, rfl⟩
+
 
 end Rows
 
@@ -693,7 +758,7 @@ and horizontal, `enu_north` tangent. -/
 theorem up_is_surface_normal (E : Ellipsoid ℝ) (ha : 0 < E.a) (hf1 : E.f < 1) (v vel : V3 ℝ)
     (hon : (v.x * v.x + v.y * v.y) / (E.a * E.a) + (v.z * v.z) / (E.b * E.b) = 1)
     (hoff : ¬ v.x * v.x + v.y * v.y ≤ E.a * E.a * 1e-32) :
-    let o : PosObj ℝ := ⟨v, vel, (trs2llh E v).lat, (trs2llh E v).lon⟩
+    let o : PosObj ℝ := ⟨v, vel, (trs2llh E v).lat, (trs2llh E v).lon, (trs2llh E v).h⟩
     let grad : V3 ℝ := ⟨v.x / E.a ^ 2, v.y / E.a ^ 2, v.z / E.b ^ 2⟩
     V3.cross grad o.up = V3.zero ∧ 0 < V3.dot grad o.up ∧ o.up.norm2 = 1 ∧
     V3.dot grad o.east = 0 ∧ V3.dot grad o.north = 0 ∧ o.east.z = 0 := by
@@ -780,3 +845,6 @@ end Midgard.Props.C06
 #print axioms Midgard.Props.C06.rows_selection_commutes
 #print axioms Midgard.Props.C06.angle_ranges
 #print axioms Midgard.Props.C06.up_is_surface_normal
+#print axioms Midgard.Props.C06.source_frame_vectors_llh
+#print axioms Midgard.Props.C06.broadcast_rows
+#print axioms Midgard.Props.C06.angle_shapes
